@@ -317,7 +317,8 @@ async fn ve_stream(rq: RequestContext<EchoCtx>, q: Query<TagQuery>, b: Streaming
 }
 
 #[endpoint { method = GET, path = "/health" }]
-async fn ve_health(_rq: RequestContext<EchoCtx>) -> Result<HttpResponseOk<String>, HttpError> {
+async fn ve_health(rq: RequestContext<EchoCtx>) -> Result<HttpResponseOk<String>, HttpError> {
+    let _ = enter(&rq);
     Ok(HttpResponseOk("ok".to_string()))
 }
 
